@@ -13,7 +13,7 @@ From C01 Require OpenN1Ops Gen_OpenN1_ops Open2N2Ops Gen_Open2N2_ops.
 From C01 Require IterMachine KindFacts Gen_UnlimP Gen_LimP1 Gen_LimP1t Gen_LimP1f Gen_Lim4 Gen_LimP Open8Match.
 From C01 Require Gen_LimP4 Gen_Open2N2 Gen_Open2N2w Gen_OpenN1.
 From C01 Require Gen_HashSetGrow GrowLoops TableN1 TableN1Inst Gen_LimP1_ops LimP1Ops Gen_HSFind ChainWalk StepExn NoSwallow.
-From C01 Require Gen_HashBucketBase Gen_Open2N2 Gen_OpenN1.
+From C01 Require Gen_HashBucketBase Gen_Open2N2 Gen_OpenN1 ReserveDecision ReserveDecisionInst.
 From MomoCommon Require GenPrelude.
 Import ListNotations.
 Local Open Scope Z_scope.
@@ -771,3 +771,49 @@ Theorem C01_momo_nomem_insert_never_throws :
                  (c_logStart c) (calc_capacity (c_pol c) (c_cap c)) (shift_fn (c_pol c) (c_cap c)) max_log s kv = Some s'.
 Proof. exact momo_nomem_insert_never_throws. Qed.
 Print Assumptions C01_momo_nomem_insert_never_throws.
+
+(* ---------- final round: HashSet::Reserve as a whole (REGENERATED: early return, pvGetNewLogBucketCount, size loop, new mCapacity / mBuckets;
+   Buckets::Create and pvRelocateItems opaque / skipped) makes the decisions of the hand model's hreserve ---------- *)
+Theorem C01_gen_newlog : forall (B : Type) mc logStart (shift : Z -> Z) (gs : list (table B)) cnt capc ht,
+  ReserveDecision.gens_ok B shift gs -> 0 <= newLog B logStart shift gs <= 63 ->
+  Gen_HashSetGrow.pvGetNewLogBucketCount mc logStart (fun bc _ => shift bc) (ReserveDecision.blog B gs) cnt capc (ReserveDecision.mbk B gs) ht
+  = GenPrelude.Ok (newLog B logStart shift gs).
+Proof. exact ReserveDecision.gen_newlog. Qed.
+Print Assumptions C01_gen_newlog.
+
+Theorem C01_gen_reserve_decision : forall (B : Type) mc logStart (shift calcCapacity : Z -> Z) (gs : list (table B)) cnt capc n ht nb ht',
+  ReserveDecision.gens_ok B shift gs -> 0 <= newLog B logStart shift gs <= 63 ->
+  match Gen_HashSetGrow.Reserve mc logStart (fun bc _ => shift bc) (fun bc _ => calcCapacity bc) (ReserveDecision.blog B gs)
+          cnt capc (ReserveDecision.mbk B gs) n ht nb ht' with
+  | GenPrelude.Ok (_, c', b') =>
+      if n <=? capc then c' = capc /\ b' = ReserveDecision.mbk B gs
+      else exists nl, reserve_log calcCapacity 64 (newLog B logStart shift gs) n = Some nl /\ nl <= 63 /\ c' = calcCapacity (2 ^ nl) /\ b' = nb
+  | GenPrelude.Exn => capc < n /\ forall nl, reserve_log calcCapacity 64 (newLog B logStart shift gs) n = Some nl -> 63 < nl
+  | _ => False
+  end.
+Proof. exact ReserveDecision.gen_reserve_decision. Qed.
+Print Assumptions C01_gen_reserve_decision.
+
+Theorem C01_gen_reserve_refines :
+  forall (B : Type) (b0 : B) upd_bound h cap unlimited wf0 wfThr start next logStart calcCapacity shift maxLog, maxLog <= 63 ->
+  forall (s : hset B) n bud ht nb ht', ReserveDecision.gens_ok B shift (gens s) -> 0 <= newLog B logStart shift (gens s) <= 63 ->
+  match hreserve B b0 upd_bound h cap unlimited wf0 wfThr start next logStart calcCapacity shift maxLog s n bud with
+  | Some s' => exists u b', Gen_HashSetGrow.Reserve cap logStart (fun bc _ => shift bc) (fun bc _ => calcCapacity bc) (ReserveDecision.blog B (gens s))
+                 (count s) (capacity s) (ReserveDecision.mbk B (gens s)) n ht nb ht' = GenPrelude.Ok (u, capacity s', b') /\
+               b' = (if n <=? capacity s then ReserveDecision.mbk B (gens s) else nb)
+  | None => Gen_HashSetGrow.Reserve cap logStart (fun bc _ => shift bc) (fun bc _ => calcCapacity bc) (ReserveDecision.blog B (gens s))
+                 (count s) (capacity s) (ReserveDecision.mbk B (gens s)) n ht nb ht' = GenPrelude.Exn \/
+            exists u nl, Gen_HashSetGrow.Reserve cap logStart (fun bc _ => shift bc) (fun bc _ => calcCapacity bc) (ReserveDecision.blog B (gens s))
+                 (count s) (capacity s) (ReserveDecision.mbk B (gens s)) n ht nb ht' = GenPrelude.Ok (u, calcCapacity (2 ^ nl), nb) /\ maxLog < nl <= 63
+  end.
+Proof. exact ReserveDecision.gen_reserve_refines. Qed.
+Print Assumptions C01_gen_reserve_refines.
+
+(* the premises of the three theorems above hold on every state satisfying the invariant, for every momo configuration *)
+Theorem C01_momo_reserve_premises : forall c (h : Z -> Z) (s : hset BS),
+  Inv BS bs0 (decode_fn (c_bound c)) h (c_cap c) (c_unlimited c) (c_wf0 c) start_fn (next_fn (c_probing c)) max_log (Binv_of (c_bound c)) s ->
+  0 <= c_logStart c <= 63 ->
+  ReserveDecision.gens_ok BS (shift_fn (c_pol c) (c_cap c)) (gens s) /\
+  0 <= newLog BS (c_logStart c) (shift_fn (c_pol c) (c_cap c)) (gens s) <= 63.
+Proof. exact ReserveDecisionInst.momo_reserve_premises. Qed.
+Print Assumptions C01_momo_reserve_premises.
